@@ -252,6 +252,21 @@ func (t *originTracer) localMapKeys(mm *ssa.MakeMap) origin {
 			if b, ok := x.Call.Value.(*ssa.Builtin); ok && (b.Name() == "delete" || b.Name() == "len") {
 				continue
 			}
+			// handed to a function that only reads it or deletes from it (it gains no key there)
+			if g := x.Call.StaticCallee(); g != nil && g.Blocks != nil {
+				readOnly := true
+				for ai, a := range x.Call.Args {
+					if a != ssa.Value(mm) {
+						continue
+					}
+					if ai >= len(g.Params) || !mapParamGainsNoKey(g.Params[ai], 0) {
+						readOnly = false
+					}
+				}
+				if readOnly {
+					continue
+				}
+			}
 			return origin{reason: "local map escapes into a call"}
 		default:
 			return origin{reason: "local map escapes"}
@@ -261,6 +276,35 @@ func (t *originTracer) localMapKeys(mm *ssa.MakeMap) origin {
 		return origin{reason: "local map never filled"}
 	}
 	return res
+}
+
+// mapParamGainsNoKey: inside its function the map parameter is only ranged over, looked up, measured or deleted from,
+// or passed on to functions of which the same holds
+func mapParamGainsNoKey(p *ssa.Parameter, depth int) bool {
+	if depth > 2 || p.Referrers() == nil {
+		return depth <= 2
+	}
+	for _, r := range *p.Referrers() {
+		switch x := r.(type) {
+		case *ssa.Range, *ssa.Lookup, *ssa.DebugRef:
+		case *ssa.Call:
+			if b, ok := x.Call.Value.(*ssa.Builtin); ok && (b.Name() == "delete" || b.Name() == "len") {
+				continue
+			}
+			g := x.Call.StaticCallee()
+			if g == nil || g.Blocks == nil {
+				return false
+			}
+			for ai, a := range x.Call.Args {
+				if a == ssa.Value(p) && (ai >= len(g.Params) || !mapParamGainsNoKey(g.Params[ai], depth+1)) {
+					return false
+				}
+			}
+		default:
+			return false
+		}
+	}
+	return true
 }
 
 func (t *originTracer) allocOrigin(a *ssa.Alloc) origin {
